@@ -78,7 +78,10 @@ def rule_r1(ctx):
                             base = norm_path(base)
                             # drop kind refinements from the `over` description
                             base = re.sub(r":[A-Za-z|]+", "", base)
-                            if not path.startswith(base):
+                            # zip()/chain() walk several lists in lockstep / one after the other: once per
+                            # element of EACH; the hole has to belong to one of them
+                            parts = [b for b in base.split(",") if b] if over.startswith(("zip(", "chain(")) else [base]
+                            if not any(path.startswith(b) for b in parts):
                                 bad = ("repeated", f"hole {path} is emitted once per element of {base} (evaluated once per element instead of once)")
                     if e.deferred and e.kind != "S" and not path.startswith(DEFERRED_OK):
                         bad = ("deferred", f"hole {path} lies inside a lambda body (evaluated lazily, not at statement execution)")
